@@ -725,6 +725,13 @@ def fixed_point_shard(args):
                     # the system's own input edited by plain assignment: one more usage pattern
                     live.apply({"op": "setlist", "kind": "system", "name": "__system__", "attr": "usage_patterns",
                                 "items": live.spec["system"]["usage_patterns"] + [outside_[0]]})
+                if i % 4 == 3:
+                    # a server computed as serverless, then given another type in place
+                    reach_ = reachable_spec_names(live.spec)
+                    sls = sorted(s_ for s_, o_ in live.spec["servers"].items() if s_ in reach_ and o_["server_type"] == "serverless"
+                                 and o_.get("fixed_nb_of_instances") is None)
+                    if sls:
+                        live.apply({"op": "settype", "kind": "servers", "name": rng.choice(sls), "value": rng.choice(["autoscaling", "on-premise"])})
                 whatifs = []
                 for k_ in range(rng.randint(0, 3)):
                     # in every other case the history starts with an edit aimed at a corner (reordered steps, …)
